@@ -94,6 +94,10 @@ fn main() {
         if t.starts_with("use std::sync::atomic") {
             prelude.push_str(&l.replace("std::sync::atomic", "loom::sync::atomic"));
             prelude.push('\n');
+        } else if t.starts_with("use std::cell") {
+            // thread-local state is plain (unshared) data under loom as well
+            prelude.push_str(l);
+            prelude.push('\n');
         } else if t.starts_with("use std::") || t.starts_with("use crate::") || t.is_empty() || t.starts_with("//") {
             // other imports are not needed by the id generator
         } else {
@@ -114,6 +118,11 @@ fn main() {
             fun.push_str(l);
             fun.push('\n');
         }
+    }
+    // thread-local statics: loom's own macro (one instance per modelled thread); it has no `const { .. }` form
+    let mut fun = fun.replace("thread_local!", "loom::thread_local!");
+    if fun.contains("loom::thread_local!") {
+        fun = fun.replace("= const { ", "= ").replace(") };", ");");
     }
     let text = format!("{prelude}\n{fun}}}\n");
     fs::write(out.join("subst_id.rs"), text).unwrap();
